@@ -97,7 +97,7 @@ func mirrorCheck(prop string, props string, rule string) func(c *vx.Ctx) {
 		}
 		exploreDeviations(c, props, maxDev, st, each)
 		exploreBFS(c, props, seeds, depth, alphabet("core"), st, each)
-		if prop == "C01" || prop == "C05" || prop == "C09" || prop == "ALLA" {
+		if prop == "C01" || prop == "C05" || prop == "C09" || prop == "C11" || prop == "ALLA" {
 			exploreRaces(c, props)
 		}
 		c.Assume("testing/synctest quiescence: between two harness events the mirror runs until every goroutine is blocked")
